@@ -8,3 +8,11 @@
    (= (select (clrProv r s p n) k) (select r k))) :pattern ((select (clrProv r s p n) k)))))
 (assert (forall ((r (Array Key Bytes)) (p Bytes) (c (Slice Coin)) (n Int) (d Str)) (! (=> (>= n 0) (= (sumDep (wrEarned r p c n) d) (sumDep r d))) :pattern ((sumDep (wrEarned r p c n) d)))))
 (assert (forall ((r (Array Key Bytes)) (o Bytes) (c (Slice Coin)) (n Int) (d Str)) (! (=> (>= n 0) (= (sumDep (wrOwnerEarned r o c n) d) (sumDep r d))) :pattern ((sumDep (wrOwnerEarned r o c n) d)))))
+; issuing requests writes only request records and pending markers
+(assert (forall ((r (Array Key Bytes)) (t Int) (h Int) (id Bytes) (c RequestContext) (cnt Int) (ps (Slice Bytes)) (n Int) (k Key))
+  (! (=> (and (>= n 0) (not (is-KReq k)) (not (is-KActB k)) (not (is-KActID k))) (= (select (issueIt r t h id c cnt ps n) k) (select r k)))
+     :pattern ((select (issueIt r t h id c cnt ps n) k)))))
+; prices are not affected by issuing requests (lemma issue_price_frame)
+(assert (forall ((r (Array Key Bytes)) (t Int) (h Int) (id Bytes) (c RequestContext) (cnt Int) (ps (Slice Bytes)) (n Int) (t2 Int) (cons Bytes) (s Str) (p Bytes))
+  (! (=> (>= n 0) (= (priceCoins (issueIt r t h id c cnt ps n) t2 cons s p) (priceCoins r t2 cons s p)))
+     :pattern ((priceCoins (issueIt r t h id c cnt ps n) t2 cons s p)))))
